@@ -103,6 +103,36 @@ LOCATE_MC = [stage_mc("MC_LocateWalk.tla", "MC_LocateWalk_gp6.cfg", workers=2),
              stage_mc("MC_LocateWalk.tla", "MC_LocateWalk_notch.cfg", workers=2, expect_violation=["Complete"])]
 
 
+def stage_sim(module, cfg, num, depth, workers=6):
+    """TLC simulation mode: long random behaviours of a mechanism model far beyond the exhaustive bound (thorough tier)"""
+    def run(ctx, cov):
+        if ctx.tier != "thorough":
+            return {}
+        t0 = time.time()
+        meta = os.path.join(ctx.wdir, "sim_" + cfg.replace(".cfg", ""))
+        rc, txt = ctx.run_tlc(module, cfg, meta, workers=workers, timeout=1500, xmx="4g",
+                              extra=["-simulate", "num=%d" % num, "-depth", str(depth), "-seed", str(1000 + ctx.seed)])
+        if rc is None:
+            return {"tool_error": "TLC simulation timeout in %s/%s" % (module, cfg)}
+        viol = re.findall(r"Error: Invariant (\w+) is violated", txt) + re.findall(r"Temporal property (\w+) was violated", txt)
+        m = re.search(r"The number of states generated: (\d+)", txt)
+        tl = re.search(r"(\d+) traces generated \(trace length: mean=(\d+)", txt)
+        n = int(m.group(1)) if m else 0
+        cov["transitions"] += n
+        cov["model_runs"].append({"module": module, "cfg": cfg, "mode": "simulation", "states_checked": n,
+                                  "traces": int(tl.group(1)) if tl else 0, "mean_length": int(tl.group(2)) if tl else 0,
+                                  "violated": viol, "wall_s": round(time.time() - t0, 1)})
+        ctx.log("SIM %s/%s: %d states checked, violated=%s in %.1fs" % (module, cfg, n, viol, time.time() - t0))
+        if viol:
+            rp = os.path.join(ctx.wdir, "replays", "%s_%s.sim.txt" % (module, cfg))
+            open(rp, "w").write(txt[-20000:])
+            return {"violations": [{"replay": rp, "what": "simulation of %s/%s violates %s" % (module, cfg, viol)}]}
+        if n == 0 or "Error:" in txt:
+            return {"tool_error": "TLC simulation failed in %s/%s:\n%s" % (module, cfg, txt[-2000:])}
+        return {}
+    return run
+
+
 def stage_caches(ctx, cov):
     """Gen_Caches -> histories -> vdrive caches -> Trace_Caches"""
     import random
@@ -564,8 +594,9 @@ PLANS = {
     "C09": dict(level="model_checking", families=[("insert", 8, 16)],
                 stages=[lambda c, v: stage_mc("MC_Caches.tla", ("MC_Caches_fixed.cfg" if c.tier == "thorough" else "MC_Caches_fixed_quick.cfg") if edit_invalidates() else "MC_Caches_pinned.cfg",
                                               expect_violation=None if edit_invalidates() else ["IndexComplete", "NoDuplicateAccepted"])(c, v),
+                        stage_sim("MC_Caches.tla", "MC_Caches_sim.cfg", 20000, 60),
                         stage_caches],
-                rule="(i) exhaustive TLC check of the cache mechanism model (2 positions, 2 objects, depth 6); (ii) every "
+                rule="(i) exhaustive TLC check of the cache mechanism model (2 positions, 2 objects, depth 6), thorough tier: 80 000 random behaviours of depth 60 in TLC simulation mode; (ii) every "
                      "history TLC generates from that model up to the depth bound (plus a seeded sample one step beyond) "
                      "replayed on the real library with the spatial index observed through hooks after every call and "
                      "compared with the model (Trace_Caches); (iii) insertion histories with duplicates and reused uuids "
@@ -587,6 +618,7 @@ PLANS = {
                 nontrivial=lambda e: None, count_items=("Locate", "qs")),
     "C11": dict(level="model_checking", families=[("queries", 14, 16)],
                 stages=[lambda c, v: stage_mc("MC_Caches.tla", ("MC_Caches_fixed.cfg" if c.tier == "thorough" else "MC_Caches_fixed_quick.cfg"))(c, v),
+                        stage_sim("MC_Caches.tla", "MC_Caches_sim.cfg", 20000, 60),
                         stage_caches],
                 rule="(i) HullFresh checked exhaustively on the cache/generation model; (ii) TLC-generated histories with "
                      "HullCreate/HullQuery replayed and compared with the model; (iii) hull creation on corpus "
